@@ -12,8 +12,11 @@ Mut(o) == [op |-> o, num |-> 0, den |-> 1, mask |-> 0, byte |-> 0]
 Signed == {[k |-> "cs", doc |-> d, key |-> sk, keyring |-> kr, mut |-> m] :
               d \in Docs, sk \in {"k1", "k2"}, kr \in Keyrings, m \in {Mut(o) : o \in Ops}}
           \cup {[k |-> "cs", doc |-> d, key |-> "k1", keyring |-> <<"k1">>, mut |-> m] : d \in Docs, m \in Frac}
+\* an empty keyring in both of its Go forms: EntityList{} and a nil EntityList behind a non-nil pointer
+EmptyForms == {[k |-> "cs", doc |-> d, key |-> sk, keyring |-> <<>>, ring_form |-> f, mut |-> Mut(o)] :
+                  d \in Docs, sk \in {"k1", "k2"}, f \in {"empty-slice", "nil-slice"}, o \in {"none", "splice_inside", "drop_sig"}}
 Unsigned == {[k |-> "cs", doc |-> d, key |-> "", keyring |-> kr, mut |-> Mut(o)] : d \in Docs, kr \in Keyrings, o \in {"none", "splice_after"}}
 \* keyring = nil cannot be written as a sequence: those vectors omit the field
 NilRing == {[k |-> "cs", doc |-> d, key |-> sk, mut |-> Mut(o)] : d \in Docs, sk \in {"k1", ""}, o \in {"none", "splice_inside", "drop_sig"}}
-ASSUME Emit(SetToSeq(Signed \cup Unsigned) \o SetToSeq(NilRing))
+ASSUME Emit(SetToSeq(Signed \cup Unsigned) \o SetToSeq(NilRing) \o SetToSeq(EmptyForms))
 =============================================================================
